@@ -1,3 +1,113 @@
-import GeomV.C03.Tie
+import GeomV.C03.LemmasArea
+/-!
+# C03 — property theorems (exact part)
+
+"For a valid polygon or multi-polygon, Area equals the area of the shells minus their holes
+whatever the winding direction of each ring, which vertex each ring starts at and whether the
+closing vertex is repeated; Centroid of closed rings is the area-weighted centroid …"
+
+The real-valued clauses (Length, Distance, Buffer) are in `ProofsReal.lean`.
+-/
 namespace GeomV.C03
+open Spec
+set_option linter.unusedSimpArgs false
+
+/-! ## Algebra of the sums the code computes (all vertex lists, no hypothesis) -/
+
+/-- The trapezoid sum of `area`/`signedarea` (closing term first, as the Go loop writes it) is the
+textbook shoelace sum of the ring. -/
+theorem shoelace_eq_textbook (r : Ring) : goCyc shoeF r = shoelace2 r := by
+  rw [goCyc_eq_cyc, cyc_shoeF_eq_crossF, shoelace2_eq']
+
+/-- Reversing the vertex order negates the shoelace sum. -/
+theorem shoelace_reverse (r : Ring) : goCyc shoeF r.reverse = -goCyc shoeF r := by
+  rw [goCyc_eq_cyc, goCyc_eq_cyc, cyc_reverse, cyc_congr (g := fun a b => -shoeF a b) (fun a b => shoeF_anti a b), cyc_neg]
+
+/-- Starting at another vertex (open spelling) does not change the shoelace sum. -/
+theorem shoelace_rotate (k : Nat) (r : Ring) : goCyc shoeF (rotN k r) = goCyc shoeF r := by
+  rw [goCyc_eq_cyc, goCyc_eq_cyc, cyc_rotN]
+
+/-- Repeating the first vertex at the end does not change the shoelace sum. -/
+theorem shoelace_close (r : Ring) : goCyc shoeF (closeRing r) = goCyc shoeF r := by
+  rw [goCyc_eq_cyc, goCyc_eq_cyc, cyc_close _ (fun a => by unfold shoeF; ring)]
+
+/-- The same three facts for both centroid numerators (`cxF`, `cyF`). -/
+theorem centroidNum_reverse (r : Ring) :
+    goCyc cxF r.reverse = -goCyc cxF r ∧ goCyc cyF r.reverse = -goCyc cyF r := by
+  constructor
+  · rw [goCyc_eq_cyc, goCyc_eq_cyc, cyc_reverse, cyc_congr (g := fun a b => -cxF a b) (fun a b => cxF_anti a b), cyc_neg]
+  · rw [goCyc_eq_cyc, goCyc_eq_cyc, cyc_reverse, cyc_congr (g := fun a b => -cyF a b) (fun a b => cyF_anti a b), cyc_neg]
+
+theorem centroidNum_rotate (k : Nat) (r : Ring) :
+    goCyc cxF (rotN k r) = goCyc cxF r ∧ goCyc cyF (rotN k r) = goCyc cyF r := by
+  constructor <;> rw [goCyc_eq_cyc, goCyc_eq_cyc, cyc_rotN]
+
+theorem centroidNum_close (r : Ring) :
+    goCyc cxF (closeRing r) = goCyc cxF r ∧ goCyc cyF (closeRing r) = goCyc cyF r := by
+  constructor
+  · rw [goCyc_eq_cyc, goCyc_eq_cyc, cyc_close _ (fun a => by unfold cxF; ring)]
+  · rw [goCyc_eq_cyc, goCyc_eq_cyc, cyc_close _ (fun a => by unfold cyF; ring)]
+
+/-- The measure of a ring does not depend on its spelling. -/
+theorem measure_spelling (s : Spell) (r : Ring) : Spec.measure (s.ap r) = Spec.measure r := measure_ap s r
+
+/-! ## Area -/
+
+theorem list_sum_nonneg {l : List Rat} (h : ∀ x ∈ l, 0 ≤ x) : 0 ≤ l.sum := by
+  induction l with
+  | nil => simp
+  | cons a t ih =>
+    rw [List.sum_cons]
+    have h1 := h a (by simp)
+    have h2 := ih (fun x hx => h x (by simp [hx]))
+    linarith
+
+/-- **Area clause.** For every valid polygon `p` (shell :: holes, `ValidPoly`) and every combination
+`ss` of per-ring reversal, rotation and closed/unclosed spelling, `Polygon.Area` of the spelled
+polygon is measure(shell) − Σ measure(holes).  `PipAgrees` is the per-instance tie to property C02
+(within.go's answer = crossing-number classification on the calls `area` makes); it is decidable,
+and the judge evaluates it on every generated case. -/
+theorem C03_area (p : Poly) (ss : List Spell) (hlen : ss.length = p.length)
+    (hv : ValidPoly p = true) (hag : PipAgrees (respell ss p) = true) :
+    polygonArea (respell ss p) = Spec.area p := by
+  cases p with
+  | nil => simp [ValidPoly] at hv
+  | cons shell holes =>
+    cases ss with
+    | nil => simp at hlen
+    | cons s0 sh => exact area_of_spelling shell holes s0 sh (by simpa using hlen) hv hag
+
+/-- **Area clause, multi-polygons.** `MultiPolygon.Area` of any spelling of valid members is the sum
+of shells minus holes.  (`HolesFit`: holes do not outweigh their shell — see Spec.) -/
+theorem C03_marea (mp : MPoly) (sss : List (List Spell))
+    (hlen : List.Forall₂ (fun ss p => ss.length = p.length) sss mp)
+    (hv : ∀ p ∈ mp, ValidPoly p = true ∧ HolesFit p = true)
+    (hag : ∀ p' ∈ List.zipWith respell sss mp, PipAgrees p' = true) :
+    multiPolygonArea (List.zipWith respell sss mp) = Spec.marea mp := by
+  have hmap : (List.zipWith respell sss mp).map polygonArea = mp.map Spec.area := by
+    induction hlen with
+    | nil => rfl
+    | @cons ss p sst mpt hl _ ih =>
+      simp only [List.zipWith_cons_cons, List.map_cons]
+      rw [C03_area p ss hl (hv p (by simp)).1 (hag _ (by simp)),
+        ih (fun q hq => hv q (by simp [hq])) (fun q hq => hag q (by simp [hq]))]
+  unfold multiPolygonArea Spec.marea
+  rw [hmap, ← sumR_eq_sum, absR_eq_abs, abs_of_nonneg]
+  rw [sumR_eq_sum]
+  apply list_sum_nonneg
+  intro x hx
+  rw [List.mem_map] at hx
+  obtain ⟨q, hq, rfl⟩ := hx
+  have := (hv q hq).2
+  unfold HolesFit at this
+  exact of_decide_eq_true this
+
+/-! non-vacuity: a 10×10 square with a 2×3 hole, hole reversed, rotated and closed -/
+def exPoly : Poly := [[⟨0,0⟩, ⟨10,0⟩, ⟨10,10⟩, ⟨0,10⟩], [⟨4,4⟩, ⟨6,4⟩, ⟨6,7⟩, ⟨4,7⟩]]
+def exSpell : List Spell := [⟨1, false, true⟩, ⟨2, true, false⟩]
+example : ValidPoly exPoly = true ∧ HolesFit exPoly = true ∧ PipAgrees (respell exSpell exPoly) = true ∧
+    exSpell.length = exPoly.length := by decide +kernel
+example : polygonArea (respell exSpell exPoly) = 94 := by
+  rw [C03_area exPoly exSpell (by decide) (by decide +kernel) (by decide +kernel)]; decide +kernel
+
 end GeomV.C03
